@@ -112,6 +112,22 @@ class Ctx:
             buckets = [records[j::nsh] for j in range(nsh)]
         cfg = self.scratch / f"{tag}.trace.cfg"
         tlc.write_cfg(cfg, init="TInit", next_="TNext", constants=constants, postcondition="TAccepted")
+        # binding self-test (tools/binding_selftest.sh): VERIF_SELFTEST=flip:<k> corrupts one observed field of the k-th record of the
+        # first validation (must come back as a VIOLATION), VERIF_SELFTEST=drop:<k> removes that record from its shard after the
+        # count was taken (must come back as a machinery failure: trace not fully consumed)
+        st = os.environ.get("VERIF_SELFTEST", "") if not getattr(self, "_selftest_done", False) else ""
+        drop = None
+        if st:
+            self._selftest_done = True
+            mode, _, k = st.partition(":")
+            b0 = next(b for b in buckets if b)
+            k = min(int(k or 0), len(b0) - 1)
+            if mode in ("flip", "flipall"):
+                b0[k] = json.loads(json.dumps(b0[k]))
+                if not _corrupt(b0[k], every=(mode == "flipall")):
+                    raise Machinery("selftest: nothing to corrupt in record %r" % b0[k])
+            elif mode == "drop":
+                drop = b0[k]["i"]
         jobs = []
         for j, b in enumerate(buckets):
             if not b:
@@ -119,6 +135,8 @@ class Ctx:
             path = self.scratch / f"{tag}.shard{j}.ndjson"
             with open(path, "w") as f:
                 for r in b:
+                    if drop is not None and r["i"] == drop:
+                        continue
                     f.write(json.dumps(r, ensure_ascii=True, separators=(",", ":")))
                     f.write("\n")
             jobs.append((j, path, len(b)))
@@ -132,7 +150,7 @@ class Ctx:
             for p in res.payload_lines():
                 out[int(p["i"])] = sorted(p["fails"])
                 self.details[int(p["i"])] = p
-            if res.depth and res.depth - 1 != n:
+            if not res.depth or res.depth - 1 != n:
                 raise Machinery(f"trace shard {path} not fully consumed: depth {res.depth} vs {n} records")
             return out, n, res
 
@@ -142,6 +160,39 @@ class Ctx:
                 self.trace_records += n
                 self.trace_runs += 1
         return fails
+
+
+def _corrupt(rec, every=False):
+    """flip the first boolean / alter the first string found under the observation part of a trace record (depth first);
+    every=True: all of them except the keys that switch judging off (accepted / ok)"""
+    hit = [0]
+
+    def walk(x):
+        it = list(x.items()) if isinstance(x, dict) else list(enumerate(x))
+        for k, v in it:
+            if every and k in ("accepted", "ok", "read_ok"):
+                continue
+            if isinstance(v, bool):
+                x[k] = not v
+                hit[0] += 1
+            elif isinstance(v, str) and v not in ("", "-"):
+                x[k] = v + "~"
+                hit[0] += 1
+            elif isinstance(v, (dict, list)):
+                walk(v)
+            if hit[0] and not every:
+                return
+
+    for key in ("obs", "parts", "observed", "res"):
+        if key in rec and isinstance(rec[key], (dict, list)):
+            walk(rec[key])
+            if hit[0]:
+                return True
+    for key in rec:
+        if key not in ("i", "case", "step", "tid") and isinstance(rec[key], bool):
+            rec[key] = not rec[key]
+            return True
+    return False
 
 
 def _jsonable(x):
@@ -239,6 +290,17 @@ def report(ctx, *, failures, matchers, evaluations, distinct_nontrivial, rule, s
            exhaustive, extra_coverage=None, max_lines=25, descr=None):
     """Classify, print KNOWN-FINDING / VIOLATION lines, write evidence, return exit code."""
     known, unknown = classify(ctx.prop, failures, matchers)
+    if ctx.replay:
+        # --replay <file>: the same exploration is run again (the generators are deterministic, so the case is re-enumerated) and only
+        # the recorded (case, clause) is decided: exit 1 and the VIOLATION line if it still fails, exit 0 otherwise; evidence untouched
+        want = json.loads(Path(ctx.replay).read_text())
+        wcase = json.dumps(want.get("case"), sort_keys=True)
+        hit = [(fl, cl) for fl, cl in unknown if cl == want.get("clause") and json.dumps(fl.get("case"), sort_keys=True) == wcase]
+        for fl, cl in hit[:1]:
+            d = (" " + descr(fl, cl)) if descr else ""
+            print(f"VIOLATION property={ctx.prop} replay={ctx.replay} clause={cl}{d}")
+        print(f"{ctx.prop} replay: recorded case {'still fails' if hit else 'no longer fails'} ({want.get('clause')}); {round(time.time() - ctx.t0, 2)}s")
+        return 1 if hit else 0
     if os.environ.get("VERIF_DUMP_FAILS"):
         with open(os.environ["VERIF_DUMP_FAILS"], "w") as f:
             for fl, clause in unknown:
